@@ -42,7 +42,7 @@ T = {
  "C09": ("Bb.C09.field_accept_iff / accept_iff_rules / accepted_fieldOk: parseField accepts a field declared with a well-formed bit/bits attribute (rendered to tokens and read back by the ArgumentParser model) iff the rule set RuleValid holds (ranges lo ≤ hi, type width = Σ range lengths, bool exactly one bit, arrays ≥ 2 elements with stride ≥ width / mandatory for lists, every addressed bit below the exposed base width), and acceptance implies FieldOk, the premise of all accessor theorems. field_accept_iff_any_order: the same equivalence for all six orders of range / access specifier / stride; range_tokens_from_text: decimal literal text ↦ token value; expand_fields_ok: every field of every accepted declaration satisfies FieldOk.", "§6 C09"),
  "C10": ("Bb.C10: bitenumCheck accepts iff EnumValid (size 1..=64, explicit literal discriminants < 2^N, exhaustive=true iff all 2^N present, false/omitted iff fewer, more than 2^N or cfg-gated variants only under conditional). config_parse_bits: the storage argument `u<n>` is read as size n.", "§6 C10"),
  "C11": ("Bb.C11.inv_new / inv_step / inv_reachable / raw_value_total / rewrap_id / getter_reads_below: the storage stays below 2^N through every history of accepted writes (all accepted fields, lists with repeated bits included), raw_value() never panics, and new_with_raw_value(x.raw_value()) has the same storage as x.", "§6 C11"),
- "C12": ("Bb.C12.history / history_runs / disjoint_commute / overlap_alias: every legal history of with_/set_ calls runs under both profiles and each bit of the final register is the bit of the last write covering it, else the initial bit (induction over the operation list, unbounded length). write_keeps_uncovered: a write through any accepted list, also one naming a bit twice, leaves uncovered positions alone; Prog.accepted_history: the same for histories against an accepted declaration with only user-visible hypotheses. disjoint_perm / history_order_independent: any two histories (any length) that are permutations of each other, the writes pairwise on disjoint position sets, end in the same register; overwrite / write_idempotent: a write whose positions the next write covers again leaves no trace. rewrite_same_field / second_write_wins: the second write to the same field and element wins entirely.", "§6 C12"),
+ "C12": ("Bb.C12.history / history_runs / disjoint_commute / overlap_alias: every legal history of with_/set_ calls runs under both profiles and each bit of the final register is the bit of the last write covering it, else the initial bit (induction over the operation list, unbounded length). write_keeps_uncovered: a write through any accepted list, also one naming a bit twice, leaves uncovered positions alone; Prog.accepted_history: the same for histories against an accepted declaration with only user-visible hypotheses. disjoint_perm / history_order_independent: any two histories (any length) that are permutations of each other, the writes pairwise on disjoint position sets, end in the same register; overwrite / write_idempotent: a write whose positions the next write covers again leaves no trace. rewrite_same_field / second_write_wins: the second write to the same field and element wins entirely. apart_elements: different elements of a contiguous array with stride >= width share no position.", "§6 C12"),
  "C13": ("Bb.C13: evaluating the generated builder chain equals folding with_ over the writable fields in declaration order from DEFAULT (or zero), arrays unrolled in index order; bits covered by no writable field keep the start value. Prog.accepted_builder: for an accepted declaration that offers a builder, every well-typed argument tuple runs from DEFAULT/zero to the last-write-wins register of its calls.", "§6 C13"),
  "C14": ("Bb.C14: the macro's mask arithmetic computes the covered positions, the self-overlap loop finds exactly double coverage, builder() is offered iff no position is writable twice and (default or full coverage); the emitted impl blocks form a strictly increasing mask chain with build only on the last. Prog.accepted_builder derives the legality of every builder call from builder_offered_iff.", "§6 C14"),
  "C15": ("Bb.C15 (partial): every listed item of the model program is emitted const and its body uses only const-evaluable constructs; that rustc's const evaluator accepts them and agrees with run time is compiler-checked on const items in the correspondence crates.", "§6 C15"),
